@@ -177,6 +177,15 @@ impl builtins::Command for DeclareCommand {
     }
 }
 
+/// The `declare -f[x] name` line that restores a function's attributes.
+fn function_attributes(name: &str, exported: bool) -> String {
+    if exported {
+        std::format!("declare -fx {name}")
+    } else {
+        std::format!("declare -f {name}")
+    }
+}
+
 impl DeclareCommand {
     fn try_display_declaration(
         &self,
@@ -200,14 +209,19 @@ impl DeclareCommand {
 
         if self.function_names_only || self.function_names_or_defs_only {
             if let Some(func_registration) = context.shell.funcs().get(name) {
+                let exported = func_registration.is_exported();
                 if self.function_names_only {
                     if self.print {
-                        writeln!(context.stdout(), "declare -f {name}")?;
+                        writeln!(context.stdout(), "{}", function_attributes(name, exported))?;
                     } else {
                         writeln!(context.stdout(), "{name}")?;
                     }
                 } else {
                     writeln!(context.stdout(), "{}", func_registration.definition())?;
+                    // Reading the text back must restore the function's attributes too.
+                    if self.print && exported {
+                        writeln!(context.stdout(), "{}", function_attributes(name, exported))?;
+                    }
                 }
                 Ok(true)
             } else {
@@ -252,6 +266,20 @@ impl DeclareCommand {
                 && !self.create_global);
 
         if self.function_names_or_defs_only || self.function_names_only {
+            // `declare -fx name` / `declare -f +x name` set or clear the export attribute.
+            if let (Some(export), brush_core::CommandArg::String(name)) =
+                (self.make_exported.to_bool(), declaration)
+            {
+                return Ok(context.shell.func_mut(name).is_some_and(|func| {
+                    if export {
+                        func.export();
+                    } else {
+                        func.unexport();
+                    }
+                    true
+                }));
+            }
+
             return self.try_display_declaration(context, declaration, verb);
         }
 
@@ -610,10 +638,20 @@ impl DeclareCommand {
         context: &brush_core::ExecutionContext<'_, impl brush_core::ShellExtensions>,
     ) -> Result<(), brush_core::Error> {
         for (name, registration) in context.shell.funcs().iter().sorted_by_key(|v| v.0) {
+            let exported = registration.is_exported();
+
+            // `-x` restricts the listing to exported functions.
+            if self.make_exported.to_bool() == Some(true) && !exported {
+                continue;
+            }
+
             if self.function_names_only {
-                writeln!(context.stdout(), "declare -f {name}")?;
+                writeln!(context.stdout(), "{}", function_attributes(name, exported))?;
             } else {
                 writeln!(context.stdout(), "{}", registration.definition())?;
+                if exported {
+                    writeln!(context.stdout(), "{}", function_attributes(name, exported))?;
+                }
             }
         }
 
